@@ -23,6 +23,16 @@ NOTE = {'idn_resconf_initialize': 'idnkit: documented as safe to call repeatedly
 OWN_ALLOC = ('malloc', 'strndup', 'calloc', 'realloc')
 
 
+def pointee_is_const(t):
+    """is the object a parameter of pointer type t points at const-qualified at its top level?
+    'const char *' -> yes; 'const char **' -> no (it points at a modifiable pointer); 'char *const *' -> yes"""
+    t = t.strip()
+    if '*' not in t: return False
+    pointee = t[:t.rindex('*')].strip()
+    if '*' in pointee: return pointee.endswith('const')
+    return 'const' in pointee.split()
+
+
 def param_types(tu, fname):
     f = tu.functions.get(fname)
     if f is None: return {}
@@ -54,16 +64,15 @@ def run(ck):
                 bad = []
                 for b in bases:
                     if b[0] in ('alloca', 'const', 'uninit'): continue
-                    if b[0] == 'call' and b[1] in OWN_ALLOC: continue
+                    if b[0] == 'call' and (b[1] in OWN_ALLOC or m.returns_fresh(b[1])): continue      # own allocation, directly or through a wrapper of this unit
                     if b[0] == 'deref' and b[1][0] == 'call': continue              # field of an own allocation
                     if b[0] in ('param', 'deref-param'):
                         t = ptypes.get(b[1], '')
-                        if t and not re.match(r'const\b', t.strip()) and '*' in t: continue
-                        if b[0] == 'deref-param' and t and '*' in t and not re.match(r'const\b', t.strip()): continue
+                        if t and '*' in t and not pointee_is_const(t): continue
                         bad.append(f'{what} through parameter {b[1]} of type "{t}"'); continue
                     if b[0] == 'deref' and b[1][0] == 'deref-param':
                         t = ptypes.get(b[1][1], '')
-                        if t and not re.match(r'const\b', t.strip()): continue      # e.g. eav->result->... : the caller's own object graph
+                        if t and not pointee_is_const(t): continue      # e.g. eav->result->... : the caller's own object graph
                         bad.append(f'{what} through const parameter {b[1][1]}'); continue
                     if b[0] in ('global', 'deref-global'): bad.append(f'{what} to global @{b[1]}'); continue
                     bad.append(f'{what} to an object the analysis cannot attribute: {b}')
@@ -73,8 +82,10 @@ def run(ck):
                 r2.instance(f'{u.key}:{fname}:{line}' if bad else f'{u.key}:{fname}', ok=not bad, wclass='store-target', what=f'{fname} (line {line}): ' + '; '.join(bad) + f' [{text[:80]}]')
             for callee, tgt, args, line, res in fn.calls:
                 if callee is None:
-                    # indirect call: only the two callbacks stored in eav_t
-                    ok = fname == 'eav_is_email'
+                    # indirect call: only through a function pointer that belongs to the caller's own object (the two
+                    # callbacks stored in eav_t) or was handed in as a parameter
+                    fb = m.bases(fn, tgt)
+                    ok = bool(fb) and all(b[0] in ('param', 'deref-param') or (b[0] == 'deref' and b[1][0] in ('param', 'deref-param')) for b in fb)
                     r3.instance(f'{u.key}:{fname}:indirect@{line}' if not ok else f'{u.key}:{fname}', ok=ok, wclass='indirect-call', what=f'{fname} makes an indirect call at line {line}')
                     continue
                 if callee in m.functions or any(callee in mm.functions for k, mm in mods.items() if not k.startswith('bin/')): continue
